@@ -19,7 +19,7 @@
    destruction) are covered by the extracted checker PropCheck.check_c06_after_evalall on every evaluateAll of every generated
    history and by correspondence. *)
 From KDB Require Import Util PropDefs PropProofs.
-From KDB Require PropAbs PropAbsLazy PropCheck PropSim PropSimLazy PropGrowLazy PropGrowLazyMore.
+From KDB Require PropAbs PropAbsLazy PropCheck PropSim PropSimLazy PropGrowLazy PropGrowLazyMore PropReg.
 
 (* a notification reaching a node of an evaluator-driven binding only sets dirty flags *)
 Theorem C06_notification_only_marks :
@@ -154,6 +154,42 @@ Example C06_reset_example :
       (filter (fun e => match e with EvVal _ => true | _ => false end) (w_trace (run fn true 8 (ops ++ [BevEvalAll 0; PGet 1; PGet 2]))))
   = [Some 22%Z; Some 20%Z].
 Proof. split; [vm_compute; repeat split; reflexivity|vm_compute; reflexivity]. Qed.
+
+(* ---- "Bindings that were reset, replaced or destroyed are never evaluated again", for EVERY history (coq/PropReg.v) ---- *)
+(* all three end in ~Binding = destroy_binding, which leaves the binding dead ... *)
+Theorem C06_destroyed_binding_is_dead :
+  forall w b x, get_bind w b = Some x ->
+    PropReg.bkey (fst (destroy_binding w b)) b = None /\ b < length (w_binds (fst (destroy_binding w b))).
+Proof. exact PropReg.destroy_binding_dead. Qed.
+Print Assumptions C06_destroyed_binding_is_dead.
+
+(* ... a dead binding stays dead through every later history, whatever its calls answer and however observers act ... *)
+Theorem C06_dead_binding_stays_dead :
+  forall fn rtl fuel ops w b, b < length (w_binds w) -> PropReg.bkey w b = None ->
+    PropReg.bkey (fold_left (step fn rtl fuel) ops w) b = None.
+Proof. exact PropReg.dead_stays_dead. Qed.
+Print Assumptions C06_dead_binding_stays_dead.
+
+(* ... and in every world any history reaches, every entry of every evaluator's registry - what evaluateAll iterates - refers to
+   a LIVE binding registered under that evaluator and id; so evaluateAll never evaluates a dead one (a change notification can not
+   reach one either: it owns no subscription, C07_only_live_bindings_are_subscribed) *)
+Theorem C06_registries_hold_live_bindings_only :
+  forall fn rtl fuel ops ep st rid b,
+    nth_error (w_evps (run fn rtl fuel ops)) ep = Some st -> In (rid, b) (ep_registry st) ->
+    PropReg.bkey (run fn rtl fuel ops) b = Some (ep, rid).
+Proof. intros fn rtl fuel ops. exact (PropReg.reachable_REGI fn rtl fuel ops). Qed.
+Print Assumptions C06_registries_hold_live_bindings_only.
+
+(* non-vacuity: a lazily bound property gets a replacement binding: binding 0 is dead, the registry holds the replacement only,
+   and evaluateAll runs the replacement's function (3) only *)
+Example C06_replaced_binding_example :
+  let fn := fun (f : nat) (l : list Z) => Some (fold_right Z.add (Z.of_nat f) l) in
+  let ops := [PNew 0 1%Z; BevNew 0; PBind 1 (EOp1 2 (EProp 0)) (MEvaluator 0); PBind 1 (EOp1 3 (EProp 0)) (MEvaluator 0); PSet 0 10%Z WSet] in
+  let w := run fn true 8 ops in
+  PropReg.bkey w 0 = None /\ PropReg.bkey w 1 = Some (1, 2) /\
+  option_map ep_registry (nth_error (w_evps w) 1) = Some [(2, 1)] /\
+  filter (fun e => match e with EvFn _ => true | _ => false end) (firstn 3 (w_trace (run fn true 8 (ops ++ [BevEvalAll 0])))) = [EvFn 3].
+Proof. vm_compute. repeat split; reflexivity. Qed.
 
 (* non-vacuity of the premises: a chain of two evaluator-driven bindings created in dependency order is such a history, its
    registration order is duplicate free and dependency ordered *)
